@@ -345,9 +345,16 @@ qb_log_callsite_get2(const char *message_id,
 
 	if (new_dcs) {
 		pthread_rwlock_rdlock(&_listlock);
-		for (pos = QB_LOG_TARGET_START; pos <= conf_active_max; pos++) {
+		/*
+		 * replay the filters of every target in use, not only of the
+		 * ones enabled right now: a target enabled later must find the
+		 * same bits as on call sites that were known when its filters
+		 * were added (qb_log_filter_ctl2 applies them regardless of the
+		 * target's state)
+		 */
+		for (pos = QB_LOG_TARGET_START; pos < QB_LOG_TARGET_MAX; pos++) {
 			t = &conf[pos];
-			if (t->state != QB_LOG_STATE_ENABLED) {
+			if (t->state == QB_LOG_STATE_UNUSED) {
 				continue;
 			}
 			qb_list_for_each(f_item, &t->filter_head) {
@@ -500,9 +507,9 @@ qb_log_callsites_register(struct qb_log_callsite *_start,
 	/*
 	 * Now apply the filters on these new callsites
 	 */
-	for (pos = QB_LOG_TARGET_START; pos <= conf_active_max; pos++) {
+	for (pos = QB_LOG_TARGET_START; pos < QB_LOG_TARGET_MAX; pos++) {
 		t = &conf[pos];
-		if (t->state != QB_LOG_STATE_ENABLED) {
+		if (t->state == QB_LOG_STATE_UNUSED) {
 			continue;
 		}
 		qb_list_for_each_entry(flt, &t->filter_head, list) {
